@@ -38,8 +38,8 @@ int vnacal_delete_parameter(vnacal_t *vcp, int parameter)
 {
     vnacal_parameter_t *vpmrp;
 
-    if (parameter < VNACAL_PREDEFINED_PARAMETERS) {
-	return 0;
+    if (parameter >= 0 && parameter < VNACAL_PREDEFINED_PARAMETERS) {
+	return 0;	/* the predefined parameters are permanent */
     }
     vpmrp = _vnacal_get_parameter(vcp, parameter);
     if (vpmrp == NULL || vpmrp->vpmr_deleted) {
